@@ -131,4 +131,22 @@ def handleSpaces (_ : Json) : Json :=
   let cps := (List.range 0x110000).filter fun n => isPySpace (Char.ofNat n) && (n < 0xd800 || n > 0xdfff)
   obj [("spaces", .arr (cps.map fun (n : Nat) => Json.num (JsonNumber.fromNat n)).toArray)]
 
+/-- `Csv.parseFile` on one source given in the `csv` op's JSON form (used by the `pipeline` op) -/
+def csvParseJson (j : Json) : Except Err (List Txn) :=
+  let spec := csvSpecOfJson (jget j "spec")
+  let c := jget j "cfg"
+  let cfg : Cfg := { spec := spec, eu := jbool c "eu", sourceName := (jstr c "source").toList,
+                     skipNonFinite := jbool c "fixed" }
+  let floats := table j "floats"
+  let dates := table j "dates"
+  let o : Oracles :=
+    { pyFloat := fun s => match floats.lookup (String.ofList s) with
+        | some (some b) => some (F64.ofBits (b.toNat?.getD 0))
+        | _ => none
+      strptime := fun _ tok => match dates.lookup (String.ofList tok) with
+        | some (some d) => some d.toList
+        | _ => none }
+  let rows : List (List Str) := (jarr j "rows").map fun r => (asStrList r).map String.toList
+  parseFile o cfg rows
+
 end TallyVerif.Driver
